@@ -1558,6 +1558,18 @@ MA('C08', 'group norm conjugate keeps the exponent', DEFF,
    'IndicatorGroupL1UnitBall.convex_conj',
    'conj_exp = conj_exponent(self.pointwise_norm.exponent)',
    'conj_exp = 1', 'IndicatorGroupL1UnitBall')
+MA('C12', 'CG breakdown test with an absolute tolerance', ITERF,
+   'conjugate_gradient', 'if inner_p_d == 0.0:...',
+   'if abs(inner_p_d) < 1e-12:\n    return', 'R8')
+MA('C12', 'CGN stops when the image is small in absolute terms', ITERF,
+   'conjugate_gradient_normal', 'if sqnorm_q == 0.0:...',
+   'if sqnorm_q < 1e-10:\n    return', 'R8')
+MA('C12', 'CG step length from the new residual', ITERF,
+   'conjugate_gradient', 'beta = sqnorm_r_new / sqnorm_r_old',
+   'beta = sqnorm_r_old / sqnorm_r_new', 'R8')
+MA('C12', 'Landweber steps along the residual without the adjoint sign', ITERF,
+   'landweber', 'x.lincomb(1, x, -omega, tmp_dom)',
+   'x.lincomb(1, x, omega, tmp_dom)', 'R8')
 M('C15', 'element from a callable no longer owns its data (regression)', 'odl/discr/discr_space.py',
   "                sampled = np.array(sampled, copy=True)",
   "                pass", 'C15-R4c')
